@@ -352,6 +352,9 @@ func runCamera(w *sys.World, sc *Scenario, summary *map[string]any) {
 		c.OnDecodeError = func(error) {}
 		c.OnPacketsLost = func(uint64) {}
 		fail := func(step string, err error) {
+			if checkRequestLines(w, sc, tp); w.Failed() {
+				return
+			}
 			w.Fail("c20/api-error "+step, "camera answering DESCRIBE of %q with Content-Base %q (present=%v), session control %q, media controls %q: %s failed: %v",
 				sc.url(), sc.ContentBase, sc.HasCB, sc.SessControl, sc.Controls, step, err)
 		}
@@ -379,7 +382,7 @@ func runCamera(w *sys.World, sc *Scenario, summary *map[string]any) {
 			fail("describe", fmt.Errorf("%d medias described, %d in the SDP", len(d.Medias), sc.Medias))
 			return
 		}
-		if sc.UseSetupAll {
+		if sc.setupAll() {
 			if err := c.SetupAll(d.BaseURL, d.Medias); err != nil {
 				fail("setup", err)
 				return
@@ -442,7 +445,7 @@ func runCamera(w *sys.World, sc *Scenario, summary *map[string]any) {
 				nSetup++
 				want, assert := refMediaURL(baseURL, sc.Controls[m])
 				if assert && !sameURL(sc, r.URL, want, isAbsolute(sc.Controls[m])) {
-					w.Fail("c20/request-url setup", "%s: SETUP for media %d (control %q) carries %q, expected %q (base %q)", ctx, m, sc.Controls[m], r.URL, want, baseURL)
+					w.Fail("c20/request-url setup", "%s: SETUP for media %d (control %q) carries %q, expected %q (base %q; an absolute control URL is sent to the host of the base URL)", ctx, m, sc.Controls[m], r.URL, want, baseURL)
 					return
 				}
 			case "PLAY", "PAUSE", "TEARDOWN":
